@@ -1,4 +1,4 @@
-import HioModel.Http.Lemmas
+import HioModel.Http.ServiceLemmas
 /-!
 # C16 — no client-sent bytes can make the HTTP server's service loop raise (likewise the client on response bytes)
 
@@ -60,6 +60,80 @@ theorem malformed_is_local (conns : List ((ReqSt × Bytes) × Bytes)) (h : ∀ c
     unfold serviceReqs
     simp only [ReqSt.noEsc] at hn
     simp [hn, ihr]
+
+/-! ### the service loops as folds over the connection table (`HioModel/Http/Service.lean`)
+
+`serverRun handlers canRespond n table` is n calls of Server.service / BareServer.service over a table whose entries carry
+the bytes / closes the kernel will deliver cycle by cycle; `handlers` is the class list the source has around
+`requestant.parse()` in that loop (regenerated: `wsgiHandlers`, `bareHandlers` — the latter is EMPTY, BareServer has no
+handler there), `canRespond` says whether the responder can answer a parsed request (a parameter: any function). -/
+
+/-- for every table (any number of connections, each with any arrival schedule of bytes and closes, well-formed or not),
+every number of cycles, every handler list (even none) and every responder behaviour: no exception leaves service(), and
+every connection ends exactly where it ends when it is served alone -/
+theorem service_total (handlers : List String) (canRespond : ReqMsg → Bool) (n : Nat) (table : List Entry)
+    (h : ∀ p ∈ table, p.1.st.1.escapedCls = none) :
+    serverRun handlers canRespond n table = .ok (table.map (entryRun handlers canRespond n)) :=
+  serverRun_eq handlers canRespond n table h
+
+/-- the instances for the two servers with the handler lists of the source as it is now -/
+theorem wsgi_service_total (canRespond : ReqMsg → Bool) (n : Nat) (table : List Entry)
+    (h : ∀ p ∈ table, p.1.st.1.escapedCls = none) :
+    ∃ t', serverRun wsgiHandlers canRespond n table = .ok t' := ⟨_, service_total _ _ n table h⟩
+
+theorem bare_service_total (canRespond : ReqMsg → Bool) (n : Nat) (table : List Entry)
+    (h : ∀ p ∈ table, p.1.st.1.escapedCls = none) :
+    ∃ t', serverRun bareHandlers canRespond n table = .ok t' := ⟨_, service_total _ _ n table h⟩
+
+/-- a connection A anywhere in the table, malformed or not, closing or not, leaves every other connection's state, buffer
+and answers exactly as in the run without A -/
+theorem siblings_unaffected (handlers : List String) (canRespond : ReqMsg → Bool) (n : Nat) (pre post : List Entry) (a : Entry)
+    (h : ∀ p ∈ pre ++ a :: post, p.1.st.1.escapedCls = none) :
+    ∃ a', serverRun handlers canRespond n (pre ++ a :: post) =
+            .ok (pre.map (entryRun handlers canRespond n) ++ a' :: post.map (entryRun handlers canRespond n)) ∧
+          serverRun handlers canRespond n (pre ++ post) =
+            .ok (pre.map (entryRun handlers canRespond n) ++ post.map (entryRun handlers canRespond n)) := by
+  refine ⟨entryRun handlers canRespond n a, ?_, ?_⟩
+  · rw [service_total handlers canRespond n _ h]; simp
+  · rw [service_total handlers canRespond n _ (fun p hp => h p (by
+      rcases List.mem_append.mp hp with h1 | h1
+      · exact List.mem_append.mpr (Or.inl h1)
+      · exact List.mem_append.mpr (Or.inr (List.mem_cons_of_mem _ h1))))]
+    simp
+
+/-- Client.service: for every arrival schedule (bytes, closes) and every behaviour of redirect() that raises only classes
+the handler around the redirect call catches, no exception leaves service() -/
+theorem client_service_total (redirect : RespMsg → Except String Unit)
+    (hr : ∀ m c, redirect m = .error c → catches clientRedirectHandlers c = true)
+    (arrivals : List Arrival) (c : CConn) (h : c.st.1.escapedCls = none) :
+    ∃ c', clientRun clientParseHandlers clientRedirectHandlers redirect c arrivals = .ok c' :=
+  clientRun_ok _ _ redirect hr arrivals c h
+
+/-- the hypothesis of `client_service_total` for the real redirect(): every class a raise site found in Client.redirect and
+everything it calls (re-send included) can produce is caught inside its function or by that handler -/
+theorem redirect_classes_caught :
+    redirectSites.all (fun s => catches s.2.2.2 s.2.2.1 || catches clientRedirectHandlers s.2.2.1) = true := by decide
+
+/-- non-vacuity: fresh connections satisfy the hypothesis, and the handler lists are the ones in the source -/
+example : (({ st := ({}, []) } : SConn), [Arrival.bytes (ascii "GET / HTTP/1.1\r\n\r\n"), .closed]).1.st.1.escapedCls = none := rfl
+theorem loop_handlers_in_source :
+    wsgiHandlers = ["HTTPException"] ∧ bareHandlers = [] ∧ clientParseHandlers = ["HTTPException"] ∧
+    clientRedirectHandlers = ["HTTPException", "ValueError"] := by decide
+
+/-! ### the reconnect path of Client.service (`transmit()` after the reconnect): NO handler around it -/
+
+/-- what can raise there is accounted for site by site: caught inside its function, or a site that only sees the client's
+own request data which the first transmit() of the same request already accepted (Requester.build / reinit /
+updateQargsQuery: explicit raises, urlsplit, .port, idna, split), or packHeader's encode — of the header values only
+Last-Event-ID comes from the server, and it is iso-8859-1 by construction (the UTF-8 bytes of the id re-read as latin-1).
+Nothing is *caught*: this is a recorded gap closed by construction + fuzz (`clir` / `sseq` cases), not by a handler. -/
+def reconnectAccounted (s : String × String × String × List String) : Bool :=
+  catches s.2.2.2 s.2.2.1 || catches reconnectHandlers s.2.2.1 ||
+  ((s.1 == "Requester.build" || s.1 == "Requester.reinit" || s.1 == "httping.updateQargsQuery") &&
+    ["raise", "urlsplit", "port", "encode-idna", "unpack-split", "encode"].contains s.2.1) ||
+  (s.1 == "httping.packHeader" && s.2.1 == "encode")
+
+theorem reconnect_sites_accounted : reconnectSites.all reconnectAccounted = true ∧ reconnectHandlers = [] := by decide
 
 /-! ### the regenerated raise-site table (translator) -/
 
